@@ -254,6 +254,11 @@ def int_boundary_constraints(rng, tier):
         if key in seen:
             continue
         seen.add(key)
+        # libasn1fix's _range_split stops at INTMAX_MAX / INTMAX_MIN ("We've hit the limit here") although
+        # asn1c_integer_t is 128 bits wide here: a union part ending exactly at 2^63-1 swallows the parts to its
+        # right (starting at -2^63: to its left).  C09's subject (crange); the shape is kept out of this generator.
+        if len(ps) > 1 and (any(b == 2**63 - 1 for _a, b in ps) or any(a == -2**63 for a, _b in ps)):
+            continue
         core = lab in ("full", "upto", "from", "single")          # every half-open range and single value, always
         if core or tier != "quick" or rng.chance(1, 3):
             res.append((lab, ps))
